@@ -22,7 +22,7 @@ RESOLVE_FUNCS = [
 
 PROPS = {
     "C06": {
-        "contracts": ["resolve"],
+        "contracts": ["a_common", "resolve"],
         "functions": RESOLVE_FUNCS,
         "assumptions": [A_HASH, DEFAULT_RESOLVERS, CIT_WF,
                         "dict model: defaultdict(list) keyed by the abstract equality key of the resource; the key object stored is not modelled (values only)",
@@ -30,7 +30,7 @@ PROPS = {
         "not_covered": ["second half of share_iff_equal ('equal <=> same normalised volume, reporter, page, not placeholder') is C16's clause"],
     },
     "C07": {
-        "contracts": ["resolve"],
+        "contracts": ["a_common", "resolve"],
         "functions": RESOLVE_FUNCS,
         "assumptions": [A_HASH, DEFAULT_RESOLVERS, CIT_WF,
                         "strip_punct is an uninterpreted function of its argument (what it strips is not part of the property)",
@@ -39,7 +39,7 @@ PROPS = {
         "not_covered": [],
     },
     "C08": {
-        "contracts": ["resolve"],
+        "contracts": ["a_common", "resolve"],
         "functions": RESOLVE_FUNCS,
         "assumptions": [A_HASH, DEFAULT_RESOLVERS, CIT_WF,
                         "the two-run statement (prefix vs whole list) is reduced to one-run obligations: functional step + append-only frame + "
